@@ -127,7 +127,7 @@ def run(ctx):
     T = ctx.tier == "thorough"
     idx = 0
     nmax = 9 if T else 7
-    fams = ("Node", "NM", "LM", "AnyNode")
+    fams = TR.READ_FAMILIES
     for n in range(1, nmax + 1):
         cnt = 0
         for par in gen.ordered_trees(n):
@@ -136,7 +136,7 @@ def run(ctx):
             if not ctx.mine(idx):
                 continue
             ch = gen.children_of(par)
-            for fam in fams if n <= 6 else (fams[idx % 4],):
+            for fam in fams if n <= 5 else (fams[idx % len(fams)],):
                 nodes = TR.build(par, fam)
                 case = {"family": fam, "par": list(par)}
                 ctx.case((fam, par), nontrivial=n > 1, sample=case if idx % 211 == 0 else None)
@@ -150,7 +150,7 @@ def run(ctx):
             idx += 1
             if not ctx.mine(idx):
                 continue
-            fam = fams[idx % 4]
+            fam = fams[idx % len(fams)]
             nodes = TR.build_ch(ch, fam)
             case = {"family": fam, "state": [list(c) for c in ch]}
             ctx.case((fam, ch), nontrivial=True)
@@ -165,8 +165,10 @@ def run(ctx):
         kind = None
         if r % 9 == 0:
             kind, n = "chain", rng.randint(20, 150)
+        elif r % 9 == 1:
+            kind, n = "spinebush", rng.randint(45, 130)
         par, kind = gen.random_tree(rng, n, kind)
-        fam = fams[r % 4]
+        fam = fams[r % len(fams)]
         nodes = TR.build(par, fam)
         case = {"family": fam, "par": list(par), "kind": kind}
         ctx.case((fam, par), sample=case if r % 40 == 0 else None)
@@ -179,7 +181,7 @@ def run(ctx):
     nh = (3000 if T else 300) // ctx.nshards + 1
     for h in range(nh):
         rng = ctx.rng("hist", h)
-        fam = ("NM", "LM", "Node", "MIX")[h % 4]
+        fam = ("NM", "LM", "Node", "MIX", "VALNM", "VALLM", "FALSY")[h % 7]
         k = rng.randint(3, 10)
         ch0 = gen.random_forest(rng, k)
         rec = F.Rec(F.materialise(fam, ch0))
